@@ -5,6 +5,7 @@ package reg
 import (
 	"encoding/json"
 	"fmt"
+	"os"
 	"sort"
 	"time"
 )
@@ -152,3 +153,16 @@ func Props() []string {
 	sort.Strings(r)
 	return r
 }
+
+// Announce records the case that is about to be executed (key = identity for known findings,
+// desc = human-readable). If the worker process then dies of an unrecoverable runtime error
+// (fatal error: out of memory), the driver attributes the crash to the announced case and reports
+// it as a violation instead of an engine error. No-op unless the driver asked for it.
+func Announce(key, desc string) {
+	if announcePath == "" {
+		return
+	}
+	os.WriteFile(announcePath, []byte(key+"\n"+desc), 0o644)
+}
+
+var announcePath = os.Getenv("VERIF_ANNOUNCE")
